@@ -10,6 +10,7 @@ import (
 	"os"
 	"path/filepath"
 	"runtime/debug"
+	"runtime/pprof"
 	"sort"
 	"strings"
 	"sync"
@@ -160,8 +161,21 @@ func main() {
 	smtlog := flag.String("smtlog", "", "log SMT text of worker 0 to this file")
 	replayPath := flag.String("replay", "", "concrete mode: run the entry named in this replay file on its values")
 	diffPath := flag.String("diffreplay", "", "engine debugging: run the replay file concretely and symbolically and report the first instruction whose value differs under the model")
+	cpuprof := flag.String("cpuprofile", "", "write a CPU profile")
 	flag.Parse()
 	debug.SetGCPercent(200)
+	if *cpuprof != "" {
+		f, _ := os.Create(*cpuprof)
+		delay, _ := time.ParseDuration(os.Getenv("VERIF_PROF_DELAY"))
+		go func() {
+			time.Sleep(delay)
+			pprof.StartCPUProfile(f)
+			time.Sleep(20 * time.Second)
+			pprof.StopCPUProfile()
+			f.Close()
+			os.Exit(3)
+		}()
+	}
 
 	res := &RunResult{Tier: *tier, Solver: *solverKind}
 	fail := func(msg string) {
@@ -407,6 +421,15 @@ func runEntry(prog *ssa.Program, cfg *Config, e EntryCfg, tier string, funcByNam
 			c.stepLimit = e.Steps
 			c.checkAlts = false
 			c.verbose = verbose
+			if verbose && w == 0 && os.Getenv("VERIF_PROGRESS") != "" {
+				go func() {
+					for {
+						time.Sleep(5 * time.Second)
+						st := append([]string(nil), c.stack...)
+						fmt.Fprintf(os.Stderr, "  [progress w0] instr=%d splits=%d forks=%d merges=%d terms=%d stack=%s\n", c.stInstr, c.stSplits, c.stStates, c.stMerges, len(c.tt.all), strings.Join(st, ">"))
+					}
+				}()
+			}
 			for {
 				mu.Lock()
 				for len(queue) == 0 && inflight > 0 {
